@@ -112,8 +112,10 @@ class GeminiProtocol(BaseGopherProtocol):
             if entry.gettype() == "7":
                 url = self.query_prefix + url
         else:
-            # Link to a different server.  Make it a gopher URL.
-            url = entry.geturl(self.server.server_name, 70)
+            # Link to a different server.  Make it a gopher URL.  An entry without a
+            # port of its own (Port=+) is on this server's port, as the Gopher
+            # menu line says -- not on 70.
+            url = entry.geturl(self.server.server_name, self.server.server_port)
 
         description = entry.getname() or ""
 
